@@ -15,7 +15,8 @@ EXPLANATION = (
     "get_any_string_pattern (finite membership on the folded pattern).  R14.3: rope's comment pattern and "
     "tokenize.Comment denote the same language (two inclusions by DFA product, modulo \\r which rope normalises away "
     "before scanning).  R14.4: every bracket counter of the text scanners classifies all of ( [ { as opening and all "
-    "of ) ] } as closing (sibling agreement with the tokenizer's paired delimiters).  Line-index inversion, the "
+    "of ) ] } as closing (sibling agreement with the tokenizer's paired delimiters).  R14.5: where a scanner captures the "
+    "run of backslashes before a token, 'escaped' is decided by the parity of the run's length.  Line-index inversion, the "
     "logical-line algorithm itself and the word/primary scanners are arithmetic over strings and are not decided."
 )
 ASSUMPTIONS = ["tokenize's own Comment pattern and _all_string_prefixes() are the oracle for the token language"]
@@ -186,3 +187,73 @@ def check(ctx, res) -> None:
                     "paired delimiters and with its sibling scanners)",
                     opens=sorted(opens), closes=sorted(closes))
     res.floor("R14.4", "bracket-counting scanners", n4, 3)
+
+    # ---- R14.5 escape parity: a scanner that captures the run of backslashes before a token may treat the token as
+    # escaped only when the run has ODD length (an even run is escaped backslashes followed by a live token)
+    from ..cfg import CFG
+
+    n5 = 0
+    for f in sorted(idx.functions.values(), key=lambda f: f.qualname):
+        if f.unit.modname not in ("rope.base.simplify", "rope.base.codeanalyze", "rope.base.worder"):
+            continue
+        # variables bound to a regex group that is a backslash run: m.group(k) where the class pattern's k-th group is (\\*)
+        runs = set()
+        pats = {}
+        if f.cls is not None:
+            for name, v in f.cls.class_attrs.items():
+                if isinstance(v, ast.Call) and call_name(v) == "compile" and v.args and const_str(v.args[0]) is not None:
+                    pats[name] = const_str(v.args[0])
+        for n in walk_local(f.node):
+            if isinstance(n, ast.Assign) and isinstance(n.targets[0], ast.Name) and isinstance(n.value, ast.Call) \
+                    and call_name(n.value) == "group" and n.value.args and isinstance(n.value.args[0], ast.Constant):
+                k = n.value.args[0].value
+                for pat in pats.values():
+                    groups = _top_groups(pat)
+                    if isinstance(k, int) and 0 < k <= len(groups) and groups[k - 1] in ("\\\\*", "\\\\+"):
+                        runs.add(n.targets[0].id)
+        if not runs:
+            continue
+        cfg = CFG(f.node)
+        for nd in cfg.nodes:
+            if nd.kind == "stmt" and isinstance(nd.ast, ast.Continue):
+                gs = [t for t, pol in cfg.guards(nd.id) if pol and any(isinstance(x, ast.Name) and x.id in runs for x in ast.walk(t))]
+                if not gs:
+                    continue
+                n5 += 1
+                parity = any(isinstance(x, ast.BinOp) and isinstance(x.op, ast.Mod) and isinstance(x.right, ast.Constant) and x.right.value == 2
+                             and any(isinstance(y, ast.Call) and call_name(y) == "len" for y in ast.walk(x.left)) for t in gs for x in ast.walk(t))
+                res.add("R14.5", f"{f.qualname.split('.', 2)[-1]}|escaped-token", parity, f"{f.unit.rel}:{nd.lineno}",
+                        "a token is skipped as escaped only on the parity of the preceding backslash run" if parity else
+                        f"{f.name} skips a token as 'escaped' on a test of the backslash run that is not its length parity ({[ast.unparse(t) for t in gs]}): "
+                        "a quote/bracket after an even run (escaped backslashes, e.g. 'C:\\\\') is ignored, the scanner stays inside the string and all following "
+                        "lines are merged into one logical line")
+    res.floor("R14.5", "escape decisions on a captured backslash run", n5, 1)
+
+
+def _top_groups(pat: str) -> List[str]:
+    """source text of the capturing groups of a pattern, in order of their opening parenthesis"""
+    out, stack, i = [], [], 0
+    starts = []
+    in_class = False
+    while i < len(pat):
+        ch = pat[i]
+        if ch == "\\":
+            i += 2
+            continue
+        if in_class:
+            if ch == "]":
+                in_class = False
+        elif ch == "[":
+            in_class = True
+        elif ch == "(":
+            cap = not pat.startswith("(?", i) or pat.startswith("(?P<", i)
+            stack.append((i, cap))
+            if cap:
+                starts.append(i)
+                out.append(None)
+        elif ch == ")" and stack:
+            st, cap = stack.pop()
+            if cap:
+                out[starts.index(st)] = pat[st + 1:i]
+        i += 1
+    return [o or "" for o in out]
